@@ -342,7 +342,10 @@ T2 = tsfmt.instant_of("2017-01-01T00:00:00.123456Z")
 T3 = tsfmt.instant_of("2018-01-01T00:00:00Z")
 PRIMS = [("int", 1), ("int", -1), ("int", 0), ("float", 1.5), ("float", -0.5), ("float", 1e-7), ("float", 1e22), ("float", 0.1), ("int", 2 ** 63), ("float", 1.2345678e-12), ("float", 5e-324), ("float", 1.7976931348623157e308), ("float", 4.9e-18),
          ("float", 2.220446049250313e-16), ("float", -1.2345678901234567e-5), ("str", "a"), ("str", "it's"), ("str", "back\\slash"), ("str", "both\\'"), ("str", "ü😀"), ("str", ""),
-         ("str", "\\\\host\\share"), ("str", "line\nfeed\ttab"), ("bool", True), ("bool", False), ("hex", "ab"), ("bin", "YQ=="), ("ts", T1), ("ts", T2), ("ts", T1, "2017-01-01T00:00:00.000Z")]
+         ("str", "\\\\host\\share"), ("str", "line\nfeed\ttab"), ("bool", True), ("bool", False), ("hex", "ab"), ("bin", "YQ=="), ("ts", T1), ("ts", T2), ("ts", T1, "2017-01-01T00:00:00.000Z"),
+         # literals whose payload begins / ends with the letter that introduces their own kind, and strings that look like a literal of another kind
+         ("bin", "bW9k"), ("bin", "bbbbTWFu"), ("bin", "AAAb"), ("bin", "bg=="), ("bin", "dGhpcyBpcyBhIHRlc3Q="), ("hex", "ba0b"), ("hex", "0123456789abcdef"), ("str", "'"), ("str", "'a'"),
+         ("str", "b'YQ=='"), ("str", "h'ab'"), ("str", "t'2017-01-01T00:00:00Z'"), ("str", "true"), ("str", " a "), ("str", "\\")]
 SETS = [("set", (("int", 1), ("int", 2))), ("set", (("str", "a"), ("str", "b'c"))), ("set", (("int", 1),)), ("set", (("ts", T1), ("ts", T3))),
         ("set", (("int", 1), ("str", "x"))), ("set", (("bool", True), ("int", 1), ("float", 1.5))), ("set", (("hex", "ab"), ("hex", "aa"))), ("set", (("str", "a"), ("ts", T1)))]
 PATHS = [(("key", "p"),), (("key", "p"), ("key", "q")), (("key", "p"), ("idx", 1)), (("key", "p"), ("idx", "*"), ("key", "q")), (("key", "p_ref"), ("key", "q")),
@@ -357,7 +360,10 @@ PATHS = [(("key", "p"),), (("key", "p"), ("key", "q")), (("key", "p"), ("idx", 1
          (("key", "p"), ("key", "'abc")), (("key", "p"), ("key", "'a'b'")), (("key", "'"),), (("key", "p"), ("key", "'a\\'")), (("key", "p"), ("key", "a'"), ("idx", 1)),
          # ... and names that LOOK like a quoted step (the quotes belong to the name)
          (("key", "p"), ("key", "'ab'")), (("key", "'ab'"),), (("key", "p"), ("key", "''")), (("key", "p"), ("key", "'a-b'"), ("idx", 1)),
-         (("key", "p"), ("key", "k k"), ("idx", "*")), (("key", "p"), ("key", "k-k"), ("idx", "*"), ("key", "q")), (("key", "k k"), ("idx", 1))]
+         (("key", "p"), ("key", "k k"), ("idx", "*")), (("key", "p"), ("key", "k-k"), ("idx", "*"), ("key", "q")), (("key", "k k"), ("idx", 1)),
+         # quoted steps that need ESCAPES, before each kind of index step and as the first step
+         (("key", "p"), ("key", "c'd"), ("idx", "*")), (("key", "p"), ("key", "c\\d"), ("idx", "*")), (("key", "p"), ("key", "c'd"), ("idx", 2)), (("key", "c'd"), ("idx", "*")),
+         (("key", "p"), ("key", "c\\'d"), ("idx", "*"), ("key", "q")), (("key", "p"), ("key", "c'd"), ("key", "e\\f"))]
 OPS = ["=", "!=", "<", "<=", ">", ">=", "IN", "LIKE", "MATCHES", "ISSUBSET", "ISSUPERSET", "EXISTS"]
 
 
